@@ -194,6 +194,7 @@ func genC03(r *sim.Rand, tier string) *sim.Program {
 			p.Add("crypt", unitLen(), knob(), r.Intn(256))
 		}
 	}
+	p.SetC("sib", r.PickInt(0, 0, 0, 1, 2, 3, 4))
 	return p
 }
 
@@ -444,6 +445,30 @@ func execC03(t *testing.T, p *sim.Program, c *sim.Ctx) {
 	for i, op := range p.Ops {
 		if c.Failed() {
 			return
+		}
+		if sib := p.C("sib"); sib > 0 && op.K == "crypt" {
+			// other mode objects are made from the SAME block value in the middle of this object's stream and used: this
+			// object must not notice (every mode object owns its chaining state; the block value only holds round keys)
+			siv := fitKey(append([]byte{byte(i), byte(sib)}, p.CB("iv")...), 16)
+			tmp := make([]byte, 96)
+			for j := range tmp {
+				tmp[j] = byte(j*7 + i)
+			}
+			switch (sib + i) % 5 {
+			case 0:
+				cipher.NewCBCEncrypter(lb, siv).CryptBlocks(tmp, tmp)
+			case 1:
+				cipher.NewCBCDecrypter(lb, siv).CryptBlocks(tmp, tmp)
+			case 2:
+				cipher.NewCTR(lb, siv).XORKeyStream(tmp, tmp[:77])
+			case 3:
+				gcipher.NewECBEncrypter(lb).CryptBlocks(tmp, tmp)
+			default:
+				if a, err := cipher.NewGCM(lb); err == nil {
+					a.Seal(nil, siv[:12], tmp[:33], nil)
+				}
+			}
+			c.Hit("probe:sibling-mode-object-from-same-block")
 		}
 		switch op.K {
 		case "setiv":
